@@ -19,6 +19,7 @@ import BR.Model.IK
 import BR.Model.Urdf
 import BR.Model.Dyn
 import BR.Model.SP
+import BR.Model.Disp
 
 namespace BR.Driver
 
@@ -636,6 +637,101 @@ def handle (fn : String) (a : List Float) : Option (List Float) :=
 
 end SPIO
 
+
+namespace DispIO
+open BR.Disp
+
+/-- exact value of an IEEE-754 double -/
+def numOfBits (b : Nat) : Num :=
+  let neg := b / 2 ^ 63 % 2 = 1
+  let e := b / 2 ^ 52 % 2048
+  let m := b % 2 ^ 52
+  if e = 2047 then (if m = 0 then Num.inf neg else Num.nan)
+  else if e = 0 then Num.fin neg m (2 ^ 1074)
+  else
+    let mant := 2 ^ 52 + m
+    if 1075 ≤ e then Num.fin neg (mant * 2 ^ (e - 1075)) 1 else Num.fin neg mant (2 ^ (1075 - e))
+
+def num (s : String) : Option Num := if s.length != 16 then none else (parseHex s).map numOfBits
+
+/-- strings travel as `x` followed by the hex of their UTF-8 bytes -/
+def unhexBytes : List Char → Option (List UInt8)
+  | [] => some []
+  | a :: b :: r => match hexVal a, hexVal b, unhexBytes r with
+    | some x, some y, some t => some ((x * 16 + y).toUInt8 :: t)
+    | _, _, _ => none
+  | _ => none
+
+def str (s : String) : Option String :=
+  match s.toList with
+  | 'x' :: r => (unhexBytes r).bind fun bs => String.fromUTF8? (ByteArray.mk bs.toArray)
+  | _ => none
+
+def hexOfString (s : String) : String :=
+  String.ofList (s.toUTF8.toList.flatMap fun b => [hexDigit (b.toNat / 16), hexDigit (b.toNat % 16)])
+
+def nums : Nat → List String → Option (List Num × List String)
+  | 0, r => some ([], r)
+  | k + 1, t :: r => do
+    let x ← num t
+    let (xs, r) ← nums k r
+    some (x :: xs, r)
+  | _, [] => none
+
+def nats : Nat → List String → Option (List Nat × List String)
+  | 0, r => some ([], r)
+  | k + 1, t :: r => do
+    let x ← t.toNat?
+    let (xs, r) ← nats k r
+    some (x :: xs, r)
+  | _, [] => none
+
+mutual
+partial def obj : List String → Option (Obj × List String)
+  | "O" :: s :: r => (str s).map fun v => (Obj.opaque v, r)
+  | "A" :: nd :: r => do
+    let k ← nd.toNat?
+    let (shape, r) ← nats k r
+    match r with
+    | c :: r => do
+      let cnt ← c.toNat?
+      let (xs, r) ← nums cnt r
+      some (Obj.arr shape xs, r)
+    | [] => none
+  | "T" :: r => do
+    let (xs, r) ← nums 6 r
+    some (Obj.tm xs, r)
+  | "W" :: r => do
+    let (xs, r) ← nums 6 r
+    some (Obj.wrench xs, r)
+  | "L" :: n :: r => do
+    let k ← n.toNat?
+    let (items, r) ← objs k r
+    some (Obj.list items, r)
+  | _ => none
+partial def objs : Nat → List String → Option (List Obj × List String)
+  | 0, r => some ([], r)
+  | k + 1, r => do
+    let (o, r) ← obj r
+    let (os, r) ← objs k r
+    some (o :: os, r)
+end
+
+/-- disp <title> <nd> <pdims> <object> -> x<hex of the rendered text>; disp.cell <nd> <float> -> the cell text -/
+def handle (fn : String) (args : List String) : String :=
+  match fn, args with
+  | "disp", t :: nd :: pd :: r =>
+    match str t, nd.toNat?, obj r with
+    | some title, some n, some (o, []) => "x" ++ hexOfString (disp o title n (pd != "0"))
+    | _, _, _ => "bad-op"
+  | "disp.cell", [nd, x] =>
+    match nd.toNat?, num x with
+    | some n, some v => "x" ++ hexOfString (cell n v)
+    | _, _ => "bad-op"
+  | _, _ => "bad-op"
+
+end DispIO
+
 /-- stateful requests; `none` = not a stateful request -/
 def handleState (st : DState) (fn : String) (args : List String) : Option (DState × String) :=
   match fn with
@@ -719,6 +815,8 @@ def handle (fn : String) (args : List String) : String :=
       | some [a,b,c,d,e,f,g,h,i,j,k,l,m,n,o,p,q,r] =>
           toString (obstruction2_gen a b c d e f g h i j k l m n o p q r)
       | _ => "bad-op"
+  | "disp" => DispIO.handle fn args
+  | "disp.cell" => DispIO.handle fn args
   | _ =>
     if fn.startsWith "mr." || fn.startsWith "scr." || fn.startsWith "hlp." || fn.startsWith "ik." || fn.startsWith "urdf." || fn.startsWith "dyn." || fn.startsWith "sp." then
       match allSome (args.map parseFloat) with
